@@ -152,7 +152,37 @@ def resolver(L, repo, meth, fixed_attr, pos):
     L.require("C02.R2", F, fn, "one fixed and one hopping return", (1, 1), (seen_fixed, seen_hop))
 
 
-def r2_setfh_order(L, repo):
+def r2_setfh_order(L, repo, force_shape=False):
+    """SETFH <HSN> <MAIO> <RXF1> <TXF1> ...: decided by folding the whole command handler (helpers included) for
+    witness commands with non-monotone channel lists: enable_fh() receives (HSN, MAIO, [(RXFn, TXFn) x 1000 ...]) in
+    the received order. The structural proof below is the fallback for handlers that do not fold."""
+    ci0, fd0 = repo.need_method("ctrl_if_trx", "CTRLInterfaceTRX", "parse_cmd")
+    F0 = rel("ctrl_if_trx")
+    L.unit(F0)
+    L.fn(F0, "CTRLInterfaceTRX.parse_cmd")
+    try:
+        if force_shape:
+            raise AnalysisError("structural attempt")
+        from cmdfold import fold_parse_cmd
+        wit = [["SETFH", "1", "2", "30", "40", "10", "20", "50", "5"],
+               ["SETFH", "0", "0", "7", "8"],
+               ["SETFH", "63", "5", "900", "945", "880", "925", "1", "2", "890", "935"],
+               ["SETFH", "17", "63", "1000", "955", "0", "45", "10", "55"]]
+        for w in wit:
+            f = fold_parse_cmd(repo, w)
+            raw = [(int(w[i]) * 1000, int(w[i + 1]) * 1000) for i in range(3, len(w) - 1, 2)]
+            want = [("enable_fh", (int(w[1]), int(w[2]), raw))]
+            got = [(c_[0], (c_[1][0], c_[1][1], [tuple(p_) for p_ in c_[1][2]]) if len(c_[1]) == 3 else c_[1])
+                   for c_ in f.calls if c_[0] == "enable_fh"]
+            L.ob("C02.R2", F0, "CTRLInterfaceTRX.parse_cmd",
+                 "CMD %s configures hopping with (HSN, MAIO, the received <RXFn> <TXFn> pairs in Hz, in the received order)" % " ".join(w),
+                 want, got, got == want and f.ret == 0, fd0.lineno)
+        L.floor("C02.R2", "SETFH witness commands folded", len(wit), 4)
+        L.structural("C02.R2 SETFH pairing by forward substitution of the handler's branch", r2_setfh_order, L, repo, True)
+        return
+    except AnalysisError as e:
+        if not force_shape:
+            L.extra["c02_setfh_fold"] = "not folded: %s" % str(e)[:100]
     from symfwd import Fwd
     ci, fd = repo.need_method("ctrl_if_trx", "CTRLInterfaceTRX", "parse_cmd")
     F = rel("ctrl_if_trx")
